@@ -35,6 +35,7 @@ func init() {
 			{ID: "C06-R12", Title: "a context that is over already is refused before anything runs", Floor: 1, Run: finishedContextIsRefused},
 			{ID: "C06-R13", Title: "an error is wrapped as it is, not re-rendered through its text (shared with C01)", Floor: 1, Run: messagesAreNotFormats},
 			{ID: "C06-R14", Title: "contexts made from nothing are an explicit table", Floor: 6, Run: detachedContextsAreEnumerated},
+			{ID: "C06-R15", Title: "http servers follow the evaluation (request contexts, lifetime)", Floor: 2, Run: httpServersFollowTheEvaluation},
 		},
 	})
 }
